@@ -232,6 +232,7 @@ unit_map_thread(ABTI_global *p_global, ABT_unit unit, ABTI_thread *p_thread)
     while (p_cur) {
         if (atomic_relaxed_load_unit(&p_cur->unit) == ABT_UNIT_NULL) {
             /* Empty element has been found.  Let's use this. */
+            ABTI_VERIF_COV(ABTI_VERIF_C_UNITMAP_REUSE_TOMBSTONE);
             atomic_relaxed_store_unit(&p_cur->unit, unit);
             /* p_cur is associated with this unit. */
             p_cur->p_thread = p_thread;
@@ -241,6 +242,7 @@ unit_map_thread(ABTI_global *p_global, ABT_unit unit, ABTI_thread *p_thread)
         p_cur = p_cur->p_next;
     }
     /* It seems that all the elements are in use.  Let's allocate a new one. */
+    ABTI_VERIF_COV(ABTI_VERIF_C_UNITMAP_APPEND);
     unit_to_thread *p_new;
     p_cur = atomic_relaxed_load_unit_to_thread(&p_entry->list);
     /* Let's dynamically allocate memory. */
@@ -291,11 +293,18 @@ unit_get_thread_from_user_defined_unit(ABTI_global *p_global, ABT_unit unit)
      * element is release-stored to the head, so acquire-load can always get a
      * valid linked-list chain. */
     unit_to_thread *p_cur = atomic_acquire_load_unit_to_thread(&p_entry->list);
+#ifdef PMODELS_ARGOBOTS_VERIF
+    int verif_chain_len = 0;
+#endif
     while (1) {
         ABTI_ASSERT(p_cur); /* get() must succeed. */
         if (atomic_relaxed_load_unit(&p_cur->unit) == unit) {
             return p_cur->p_thread;
         }
         p_cur = p_cur->p_next;
+#ifdef PMODELS_ARGOBOTS_VERIF
+        if (++verif_chain_len == 3)
+            ABTI_VERIF_COV(ABTI_VERIF_C_UNITMAP_LONG_CHAIN);
+#endif
     }
 }
